@@ -219,7 +219,11 @@ func runC18(tb report.TB, rep *report.Reporter, c c18Case) {
 						exp.add(id, string(op.Id()))
 					}
 				case "label":
-					if _, op, err := bc.ChangeLabelsRaw(me, tstamp, []string{fmt.Sprintf("l-%d-%d", wi, ci)}, nil, nil); err == nil {
+					label := fmt.Sprintf("l-%d-%d", wi, ci)
+					if call.Bug%2 == 0 {
+						label = "triage" // several requests ask for the same label: all but the first have nothing to do, which is an error answer
+					}
+					if _, op, err := bc.ChangeLabelsRaw(me, tstamp, []string{label}, nil, nil); err == nil {
 						exp.add(id, string(op.Id()))
 					}
 				case "commit":
